@@ -236,7 +236,12 @@ pub async fn read_http_request<const BUF_SIZE: usize>(
         .remove_only("expect")
         .map_or(false, |s| s.as_str() == "100-continue");
     let (gzip, chunked) = {
-        let opt_ascii_string = head.headers.remove_only("transfer-encoding");
+        // A repeated transfer-encoding header is ambiguous.  Do not treat it as absent.
+        let mut values = head.headers.remove_all("transfer-encoding");
+        if values.len() > 1 {
+            return Err(HttpError::UnsupportedTransferEncoding);
+        }
+        let opt_ascii_string = values.pop();
         let mut iter = opt_ascii_string
             .as_ref()
             .map(AsciiString::as_str)
